@@ -80,6 +80,7 @@ type sfs struct {
 	withTErr  bool // returned objects implement TransferError
 
 	realPathFn func(string) (string, error)
+	dotEntries bool // directory listings start with "." and ".."
 }
 
 func newSfs(sim *vfSim) *sfs {
@@ -547,6 +548,9 @@ func (fs *sfs) filelist(method string, r *Request) (ListerAt, error) {
 		if nd.kind != 'd' {
 			fs.mu.Unlock()
 			return nil, syscall.ENOTDIR
+		}
+		if fs.dotEntries {
+			names = append(names, &sfInfo{name: ".", nd: nd}, &sfInfo{name: "..", nd: nd})
 		}
 		for _, c := range fs.children(r.Filepath) {
 			names = append(names, fs.info(c, fs.nodes[c]))
